@@ -16,7 +16,11 @@ Subset (anything else raises ExtractError => the tie is reported as broken):
                and/or/not in boolean position, `x is [not] None`, `a in (..)`, `c in "lit"`,
                e1 if c else e2, tuples, list literals, subscripts l[i], len(), ord(),
                [f(x) for x in l], and calls listed in the module spec (other translated
-               functions or primitives of a hand-written Coq module, e.g. regex leaves)
+               functions or primitives of a hand-written Coq module, e.g. regex leaves),
+               `a or d` in value position (a: optional/plain str or list), `"c" in s` (one-character
+               literal), a pure generator expression as the iterable of a comprehension,
+               f(a, name=b) for a rendering with named parameters (Call.kw; keywords in parameter
+               order), field reads x.f through the spec key "<type>.@f"
 
 Semantics kept: evaluation order, exceptions (`result`), early return, for/else, shared
 iterators, truthiness of lists/strings/ints/options, Python negative indexing.
@@ -25,6 +29,10 @@ translating (a mismatch is an ExtractError), and again by Coq's type checker.
 
 Every `while` (and every loop over a shared iterator) becomes a Fixpoint on explicit fuel
 returning `Err OutOfFuel` when exhausted; the tie lemma proves the fuel expression suffices.
+A loop inside the body of another loop takes what follows it as a continuation parameter
+`kxN_` over its loop state (_nested_exit); loops are numbered in source order, outer first.
+A call argument of type ("literal", "<source text>", "<coq term>") must be exactly that source
+text (regex flags such as `re.MULTILINE | re.DOTALL`) and is rendered by the Coq term.
 """
 import ast
 import os
@@ -97,17 +105,43 @@ def coerce(text, frm, to, node=None):
 class Call:
     """How a Python call is rendered: `coq` applied to the translated arguments.
     args: expected types; ret: result type; monadic: returns `result ret` (may raise)."""
-    def __init__(self, coq, args, ret, monadic=False):
+    kw = None   # optional parameter names (one per entry of args, None = positional only): enables `f(a, name=b)`
+    # selfmethod (set after construction): "Cls.meth", the qual of a Fun OF THE SAME MODULE translated in METHOD MODE
+    # with the same ghost parameters and the same state as the caller (coq = its Coq name, args/ret = its parameter
+    # types/return type).  `x = self.meth(a..)` / `self.meth(a..)` — statements only — then runs the translated method
+    # on the caller's current state: the returned state replaces the caller's state variables, an exception of the
+    # callee propagates with the state the callee reached.  Arguments left out take the defaults that the callee's
+    # `def` has in the source now (constants only).
+    selfmethod = None
+
+    def __init__(self, coq, args, ret, monadic=False, mutates=False):
         self.coq, self.args, self.ret, self.monadic = coq, list(args), ret, monadic
+        # mutates: a method that changes its receiver (first argument); the Coq function returns
+        # (ret * receiver') — or result of that when monadic.  Only usable as `x = recv.m(..)` / `recv.m(..)` statements.
+        self.mutates = mutates
 
 
 class Fun:
-    def __init__(self, coq, qual, params, ret, locals=None, fuel=None, skip_first=False, generator=False):
+    def __init__(self, coq, qual, params, ret, locals=None, fuel=None, skip_first=False, generator=False,
+                 state=None, ghost=None):
         self.coq, self.qual, self.params, self.ret = coq, qual, list(params), ret
+        # state: [(source text of the attribute, e.g. "self.__cur", variable name, type)] — METHOD MODE: the
+        # attributes are threaded as variables and the function returns `mres ret (state tuple)`: the final
+        # state is returned on normal return AND on an exception (partial effects are kept, as in Python).
+        self.state = list(state or [])
+        # ghost: [(name, type)] extra leading Coq parameters that the primitives need (e.g. the file contents)
+        self.ghost = list(ghost or [])
         self.locals = dict(locals or {})
         self.fuel = dict(fuel or {})
         self.skip_first = skip_first
         self.generator = generator
+        # narrow (opt-in): flow typing of option variables — `x = e` with e : T binds x at type T although x is
+        # declared ("option", T); a join point / loop keeps T when every incoming edge has T (loops: when the
+        # body does not assign x).  Without it every variable has its declared type after an assignment/join.
+        self.narrow = False
+        # result_var (opt-in): the function returns None after mutating this PARAMETER in place; the translation
+        # returns its final value instead (ret = its type).  The parameter must never be rebound.
+        self.result_var = None
 
 
 class Module:
@@ -160,6 +194,20 @@ def find_value(tree, qual):
 def regex_text(tree, qual):
     """The pattern text of `X = re.compile(<literal>[, flags])`; flags are returned as source text."""
     v = find_value(tree, qual)
+    if isinstance(v, ast.Call) and ast.unparse(v.func) == "re.compile" and v.args \
+            and not isinstance(v.args[0], ast.Constant):
+        # re.compile(NAME) / re.compile(NAME.encode('UTF-8')) where NAME = <string literal> at module level
+        a0, enc = v.args[0], False
+        if isinstance(a0, ast.Call) and isinstance(a0.func, ast.Attribute) and a0.func.attr == "encode" \
+                and not a0.keywords and len(a0.args) == 1 and isinstance(a0.args[0], ast.Constant) \
+                and str(a0.args[0].value).lower().replace("-", "") == "utf8":
+            a0, enc = a0.func.value, True
+        if isinstance(a0, ast.Name):
+            lit = find_value(tree, a0.id)
+            if isinstance(lit, ast.Constant) and isinstance(lit.value, str):
+                val = lit.value.encode("utf-8") if enc else lit.value
+                v = ast.copy_location(ast.Call(func=v.func, args=[ast.Constant(value=val)] + v.args[1:],
+                                               keywords=v.keywords), v)
     if not (isinstance(v, ast.Call) and ast.unparse(v.func) == "re.compile" and v.args
             and isinstance(v.args[0], ast.Constant) and isinstance(v.args[0].value, (str, bytes))):
         _bad("%s is not re.compile(<literal>)" % qual)
@@ -189,14 +237,50 @@ class FunTr:
         self.ntmp = 0
         self.njoin = 0
         self.rty = ("list", fun.ret) if fun.generator else fun.ret
-        self.decl = dict(fun.params)
+        self.decl = dict(fun.ghost)
+        self.decl.update(dict(fun.params))
         self.decl.update(fun.locals)
+        self.method = bool(fun.state)
+        self.stattr = {a: v for a, v, _ in fun.state}
+        for _, v, t in fun.state:
+            self.decl[v] = t
+        names_ = [g for g, _ in fun.ghost] + [p for p, _ in fun.params] + [v for _, v, _ in fun.state] + list(fun.locals)
+        if len(set(names_)) != len(names_):
+            _bad("name clash between ghost/params/state/locals of %s: %r" % (fun.qual, names_))
+        if self.method and fun.generator:
+            _bad("a generator method is not supported: %s" % fun.qual)
         if fun.generator:
             self.decl["out__"] = ("list", fun.ret)
-        self.order = [p for p, _ in fun.params] + (["out__"] if fun.generator else []) + \
-                     [k for k in fun.locals]
+        self.order = [g for g, _ in fun.ghost] + [p for p, _ in fun.params] + [v for _, v, _ in fun.state] + \
+                     (["out__"] if fun.generator else []) + [k for k in fun.locals]
 
     # ------------------------------------------------------------------ helpers
+    def st_tuple(self):
+        return "(" + ", ".join(cname(v) for _, v, _ in self.fun.state) + ")"
+
+    def st_type(self):
+        return "(" + " * ".join(ty_coq(t) for _, _, t in self.fun.state) + ")%type"
+
+    def rtype(self):
+        if self.method:
+            return "mres %s %s" % (ty_coq(self.rty), self.st_type())
+        return "result %s" % ty_coq(self.rty)
+
+    def ok(self, text):
+        return "MOk %s %s" % (text, self.st_tuple()) if self.method else "Ok %s" % text
+
+    def err(self, kind):
+        return "MErr %s %s" % (kind, self.st_tuple()) if self.method else "Err %s" % kind
+
+    def swrap(self, pre, body):
+        """Statement-level monadic prelude: in method mode an exception returns the state reached so far."""
+        if not self.method:
+            return wrap(pre, body)
+        out = body
+        for v, m in reversed(pre):
+            out = "(match %s with Ok %s => %s | Err e__ => MErr e__ %s end)" % (m, v, out, self.st_tuple())
+        return out
+
     def tmp(self):
         self.ntmp += 1
         return "tmp%d_" % self.ntmp
@@ -215,6 +299,11 @@ class FunTr:
         if t in ("str", "strbuf") or (isinstance(t, tuple) and t[0] == "list"):
             return "(negb (tr_is_nil %s))" % e.text
         if isinstance(t, tuple) and t[0] == "option":
+            inner = t[1]
+            if inner in ("str", "strbuf", "Z", "bool", "char") or (isinstance(inner, tuple) and inner[0] in ("list", "iter", "option")):
+                # Some "" / Some 0 / Some [] are falsy in Python: `if x:` on such a value is not `x is not None`
+                _bad("truth value of an optional %r (None and the empty/zero value are both falsy); test `is None` "
+                     "explicitly or narrow first" % (inner,), node)
             return "(tr_is_some %s)" % e.text
         _bad("truth value of type %r is not supported" % (t,), node)
 
@@ -235,7 +324,29 @@ class FunTr:
     def cond(self, n, env):
         """A test in boolean position -> E of type bool (prelude possible)."""
         if isinstance(n, ast.BoolOp):
-            parts = [self.cond(v, env) for v in n.values]
+            saved_tmp = self.ntmp
+            try:
+                parts = [self.cond(v, env) for v in n.values]
+            except ExtractError:
+                # `x is None or P(x)` / `x is not None and P(x)` on an option-typed variable: P is evaluated only
+                # when x is not None, so x has its inner type there.  Tried only when the plain rendering fails.
+                nar = self._narrow(n.values[0], env) if len(n.values) >= 2 else None
+                if not (nar and nar[1] == isinstance(n.op, ast.Or)):
+                    raise
+                self.ntmp = saved_tmp
+                name = nar[0]
+                env_some = dict(env)
+                env_some[name] = env[name][1]
+                rest = n.values[1] if len(n.values) == 2 else \
+                    ast.copy_location(ast.BoolOp(op=n.op, values=n.values[1:]), n)
+                r = self.cond(rest, env_some)
+                short = "true" if isinstance(n.op, ast.Or) else "false"
+                if r.pre:
+                    t = self.tmp()
+                    return E([(t, "match %s with None => Ok %s | Some %s => %s end" % (
+                        cname(name), short, cname(name), wrap(r.pre, "Ok %s" % r.text)))], t, "bool")
+                return E([], "(match %s with None => %s | Some %s => %s end)" % (
+                    cname(name), short, cname(name), r.text), "bool")
             op = "&&" if isinstance(n.op, ast.And) else "||"
             if all(not p.pre for p in parts[1:]):
                 return E(parts[0].pre, "(" + (" %s " % op).join(p.text for p in parts) + ")", "bool")
@@ -273,6 +384,13 @@ class FunTr:
         _bad("constant %r" % (v,), n)
 
     def _expr(self, n, env, want):
+        if isinstance(want, tuple) and want[0] == "literal":
+            # ("literal", source text, coq term): a call argument that the spec asserts AS SOURCE TEXT (regex flags,
+            # …) and renders by a hand-written Coq term; any other text fails closed.  The spec's author vouches
+            # that evaluating that text cannot raise and has no effect.
+            if ast.unparse(n) != want[1]:
+                _bad("argument is `%s`; the spec asserts the literal source text `%s`" % (ast.unparse(n), want[1]), n)
+            return E([], want[2], want)
         if isinstance(n, ast.Constant):
             return self._const(n, want)
         if isinstance(n, ast.Name):
@@ -284,9 +402,22 @@ class FunTr:
             _bad("name %r is not defined here" % n.id, n)
         if isinstance(n, ast.Attribute):
             key = ast.unparse(n)
+            if key in self.stattr:
+                v = self.stattr[key]
+                return E([], cname(v), env[v])
             if key in self.mod.consts:
                 t, ty = self.mod.consts[key]
                 return E([], t, ty)
+            # field read on a typed receiver: spec key "<type>.@field" -> a one-argument getter
+            try:
+                recv = self.expr(n.value, env)
+            except ExtractError:
+                recv = None
+            if recv is not None:
+                tname = recv.ty if isinstance(recv.ty, str) else (recv.ty[1] if recv.ty[0] == "coq" else recv.ty[0])
+                g = self.mod.calls.get("<%s>.@%s" % (tname, n.attr))
+                if isinstance(g, Call) and len(g.args) == 1 and not g.monadic:
+                    return E(recv.pre, "(%s %s)" % (g.coq, coerce(recv.text, recv.ty, g.args[0], n)), g.ret)
             _bad("attribute %s" % key, n)
         if isinstance(n, ast.Tuple):
             wants = list(want[1:]) if isinstance(want, tuple) and want[0] == "tuple" and len(want) - 1 == len(n.elts) \
@@ -315,6 +446,9 @@ class FunTr:
                 return E(e.pre, "(- %s)%%Z" % e.text, "Z")
             _bad("unary operator", n)
         if isinstance(n, ast.BoolOp):
+            v = self._value_or(n, env)
+            if v is not None:
+                return v
             return self.cond(n, env)
         if isinstance(n, ast.BinOp):
             return self._binop(n, env, want)
@@ -353,7 +487,12 @@ class FunTr:
                     or not isinstance(n.generators[0].target, ast.Name):
                 _bad("only [f(x) for x in l if p(x)] comprehensions", n)
             g = n.generators[0]
-            it = self.expr(g.iter, env)
+            if isinstance(g.iter, ast.GeneratorExp):
+                # a generator expression consumed exactly once, here: evaluated eagerly, which is the same
+                # only if producing its elements cannot raise (otherwise the interleaving would matter)
+                it = self.pure(ast.copy_location(ast.ListComp(elt=g.iter.elt, generators=g.iter.generators), g.iter), env)
+            else:
+                it = self.expr(g.iter, env)
             ety = self._elem_ty(it.ty, g.iter)
             env2 = dict(env)
             env2[g.target.id] = ety
@@ -373,6 +512,25 @@ class FunTr:
         if isinstance(n, ast.Call):
             return self._call(n, env, want)
         _bad("expression %s" % type(n).__name__, n)
+
+    def _value_or(self, n, env):
+        """`a or d` in VALUE position with `a` an optional / plain str or list and `d` a pure str or list:
+        Python yields `a` when it is truthy, else `d`.  None when the expression is not of that shape."""
+        if not (isinstance(n.op, ast.Or) and len(n.values) == 2):
+            return None
+        saved = self.ntmp
+        try:
+            a = self.expr(n.values[0], env)
+        except ExtractError:
+            self.ntmp = saved
+            return None
+        opt = isinstance(a.ty, tuple) and a.ty[0] == "option"
+        inner = a.ty[1] if opt else a.ty
+        if not (inner == "str" or (isinstance(inner, tuple) and inner[0] == "list")):
+            self.ntmp = saved
+            return None
+        d = self.pure(n.values[1], env, inner)
+        return E(a.pre, "(%s %s %s)" % ("tr_opt_or" if opt else "tr_or", a.text, coerce(d.text, d.ty, inner, n)), inner)
 
     def _elem_ty(self, t, node):
         if t in ("str", "strbuf"):
@@ -405,7 +563,17 @@ class FunTr:
 
     def _compare(self, n, env):
         if len(n.ops) != 1:
-            _bad("chained comparison", n)
+            # a < b <= c : each operand evaluated once, left to right; c only if a < b holds.  Rendered as a
+            # conjunction when every operand is pure (then evaluating c eagerly is unobservable).
+            operands = [n.left] + list(n.comparators)
+            parts = []
+            for i, op_ in enumerate(n.ops):
+                sub = ast.copy_location(ast.Compare(left=operands[i], ops=[op_], comparators=[operands[i + 1]]), n)
+                e = self._compare(sub, env)
+                if e.pre:
+                    _bad("chained comparison with an operand that may raise", n)
+                parts.append(e.text)
+            return E([], "(" + " && ".join(parts) + ")", "bool")
         op, rn = n.ops[0], n.comparators[0]
         if isinstance(op, (ast.Is, ast.IsNot)):
             if not (isinstance(rn, ast.Constant) and rn.value is None):
@@ -431,6 +599,10 @@ class FunTr:
                 b = self.pure(rn, env)
                 if a.ty == "char" and b.ty in ("str", "strbuf"):
                     txt = "(tr_char_in %s %s)" % (a.text, b.text)
+                elif a.ty == "str" and b.ty in ("str", "strbuf") and isinstance(n.left, ast.Constant) \
+                        and isinstance(n.left.value, str) and len(n.left.value) == 1:
+                    # a one-character literal: substring membership is character membership
+                    txt = "(tr_char_in %d%%N %s)" % (ord(n.left.value), b.text)
                 else:
                     _bad("membership of %r in %r" % (a.ty, b.ty), n)
             return E(a.pre, "(negb %s)" % txt if neg else txt, "bool")
@@ -457,10 +629,15 @@ class FunTr:
     def _narrow(self, test, env):
         """`X is None` / `X is not None` on an option-typed variable -> (name, none_first) else None."""
         if isinstance(test, ast.Compare) and len(test.ops) == 1 and isinstance(test.ops[0], (ast.Is, ast.IsNot)) \
-                and isinstance(test.left, ast.Name) and isinstance(test.comparators[0], ast.Constant) \
-                and test.comparators[0].value is None and test.left.id in env \
-                and isinstance(env[test.left.id], tuple) and env[test.left.id][0] == "option":
-            return test.left.id, isinstance(test.ops[0], ast.Is)
+                and isinstance(test.comparators[0], ast.Constant) and test.comparators[0].value is None:
+            nm = None
+            if isinstance(test.left, ast.Name):
+                nm = test.left.id
+            # (state attributes of a method are never narrowed: the state tuple returned on every exit
+            #  refers to them by name with their declared types; `x is None` on them is a plain test and a
+            #  method call on a possibly-None one goes through tr_unwrap)
+            if nm is not None and nm in env and isinstance(env[nm], tuple) and env[nm][0] == "option":
+                return nm, isinstance(test.ops[0], ast.Is)
         return None
 
     def _ifexp(self, n, env, want):
@@ -493,21 +670,45 @@ class FunTr:
             return E(c.pre + [(t, "(if %s then %s else %s)" % (c.text, wrap(a.pre, "Ok %s" % ta), wrap(b.pre, "Ok %s" % tb)))], t, ty)
         return E(c.pre, "(if %s then %s else %s)" % (c.text, ta, tb), ty)
 
+    def _kw_slots(self, n, cand):
+        """Argument nodes of the call in parameter order.  Keyword arguments are accepted only for a rendering
+        that names its parameters (`Call.kw`), must all be given, and must come in parameter order — then the
+        textual order is Python's evaluation order (positional, then keywords as written)."""
+        if not n.keywords:
+            return list(n.args)
+        names = cand.kw
+        if names is None or len(names) != len(cand.args):
+            _bad("keyword arguments for a rendering without parameter names", n)
+        slots = list(n.args)
+        for k in n.keywords:
+            if k.arg is None or len(slots) >= len(names) or names[len(slots)] != k.arg:
+                _bad("keyword argument %r out of parameter order / unknown / parameter left out" % k.arg, n)
+            slots.append(k.value)
+        return slots
+
     def _call(self, n, env, want):
-        if n.keywords:
-            _bad("keyword arguments", n)
         key = ast.unparse(n.func)
+        if n.keywords and key not in self.mod.calls:
+            _bad("keyword arguments", n)
         if key in self.mod.calls:
             alts = self.mod.calls[key]
             alts = alts if isinstance(alts, (list, tuple)) else [alts]
+            if any(getattr(a_, "selfmethod", None) for a_ in alts):
+                _bad("a call of a method of the same object (%s) is only supported as a statement "
+                     "`x = self.m(..)` / `self.m(..)`" % key, n)
             c = es = texts = None
             errs = []
             for cand in alts:          # overloads: the first whose parameter types fit
-                if len(cand.args) != len(n.args):
+                try:
+                    n_args = self._kw_slots(n, cand)
+                except ExtractError as ex:
+                    errs.append(str(ex))
+                    continue
+                if len(cand.args) != len(n_args):
                     errs.append("%s expects %d arguments" % (key, len(cand.args)))
                     continue
                 try:
-                    es = [self.expr(a, env, w) for a, w in zip(n.args, cand.args)]
+                    es = [self.expr(a, env, w) for a, w in zip(n_args, cand.args)]
                     texts = [coerce(e.text, e.ty, w, n) for e, w in zip(es, cand.args)]
                     c = cand
                     break
@@ -527,8 +728,13 @@ class FunTr:
                 recv = self.expr(n.func.value, env)
             except ExtractError:
                 recv = None
+            if recv is not None and isinstance(recv.ty, tuple) and recv.ty[0] == "option" \
+                    and ("<option>.%s" % n.func.attr) not in self.mod.calls:
+                # a method call on a possibly-None value: None raises AttributeError (rendered OtherError)
+                t = self.tmp()
+                recv = E(recv.pre + [(t, "tr_unwrap %s" % recv.text)], t, recv.ty[1])
             if recv is not None:
-                tname = recv.ty if isinstance(recv.ty, str) else recv.ty[0]
+                tname = recv.ty if isinstance(recv.ty, str) else (recv.ty[1] if recv.ty[0] == "coq" else recv.ty[0])
                 mkey = "<%s>.%s" % (tname, n.func.attr)
                 if mkey in self.mod.calls:
                     alts = self.mod.calls[mkey]
@@ -603,11 +809,24 @@ class FunTr:
                         for m in ast.walk(t):
                             if isinstance(m, ast.Name):
                                 add(m.id)
+                            if isinstance(m, ast.Attribute) and ast.unparse(m) in self.stattr:
+                                add(self.stattr[ast.unparse(m)])
                     if isinstance(n, ast.For) and isinstance(n.iter, ast.Name):
                         add(n.iter.id)          # a shared iterator is advanced
                 if isinstance(n, ast.Call) and isinstance(n.func, ast.Attribute) and isinstance(n.func.value, ast.Name) \
                         and n.func.attr in ("append", "pop", "write", "extend", "insert"):
                     add(n.func.value.id)
+                if isinstance(n, ast.Call) and isinstance(n.func, ast.Attribute):
+                    rv = n.func.value
+                    if isinstance(rv, ast.Attribute) and ast.unparse(rv) in self.stattr:
+                        add(self.stattr[ast.unparse(rv)])     # a method call on a state attribute may change it
+                    elif isinstance(rv, ast.Name) and any(
+                            k.endswith("." + n.func.attr) and any(c.mutates for c in (v if isinstance(v, (list, tuple)) else [v]))
+                            for k, v in self.mod.calls.items() if k.startswith("<")):
+                        add(rv.id)
+                if isinstance(n, ast.Call) and self._selfcall(n) is not None:
+                    for _, v_, _ in self.fun.state:          # a method of the same object may change every attribute
+                        add(v_)
                 if isinstance(n, (ast.Yield, ast.YieldFrom)):
                     add("out__")
         return out
@@ -627,8 +846,59 @@ class FunTr:
         """let name := e (coerced to the declared type); returns (text prefix, new env)."""
         ty = self.declared(name, node)
         env2 = dict(env)
+        if self.fun.narrow and isinstance(ty, tuple) and ty[0] == "option" and e.ty not in ("none", "nil") \
+                and same_repr(e.ty, ty[1]):
+            env2[name] = ty[1]          # flow typing: the variable is known not to be None from here on
+            return "let %s := %s in " % (cname(name), e.text), env2
         env2[name] = ty
         return "let %s := %s in " % (cname(name), coerce(e.text, e.ty, ty, node)), env2
+
+    def _result_var(self, env, node):
+        """Fun.result_var: the function returns None after changing this parameter in place; the translated
+        function returns the parameter's final value.  Only sound if the name is never rebound (checked)."""
+        rv = self.fun.result_var
+        if rv not in [p for p, _ in self.fun.params] or self.fun.generator or self.method:
+            _bad("result_var %r must be a parameter of a plain function" % rv, node)
+        for m in ast.walk(self.node):
+            tgts = []
+            if isinstance(m, ast.Assign):
+                tgts = m.targets
+            elif isinstance(m, (ast.AugAssign, ast.For, ast.NamedExpr)):
+                tgts = [m.target]
+            for t in tgts:
+                for q in ast.walk(t):
+                    if isinstance(q, ast.Name) and q.id == rv and isinstance(q.ctx, ast.Store):
+                        _bad("result_var %r is rebound: the caller's object is no longer the local one" % rv, m)
+        return self.ok(coerce(cname(rv), env[rv], self.rty, node))
+
+    def _probe(self, branches, ctx):
+        """Dry run of alternative blocks: the environments with which each reaches its normal end.
+        (Translator state is restored; used by the opt-in flow typing to type join points.)"""
+        saved = (list(self.defs), self.nloop, self.ntmp, self.njoin)
+        seen = []
+
+        def rec(e):
+            seen.append(dict(e))
+            return "PROBE__"
+        try:
+            for stmts, e in branches:
+                self.block(stmts, e, rec, ctx)
+        finally:
+            self.defs[:] = saved[0]
+            self.nloop, self.ntmp, self.njoin = saved[1:]
+        return seen
+
+    def _narrowed(self, envs, names):
+        """Variables among `names` declared ("option", T) that have type T in every environment of `envs`."""
+        out = {}
+        if not (self.fun.narrow and envs):
+            return out
+        for v in names:
+            d = self.decl.get(v)
+            if isinstance(d, tuple) and d[0] == "option" and all(v in e and same_repr(e[v], d[1]) and not same_repr(e[v], d)
+                                                                 for e in envs):
+                out[v] = d[1]
+        return out
 
     def block(self, stmts, env, k, ctx):
         if not stmts:
@@ -649,13 +919,17 @@ class FunTr:
             if self.fun.generator:
                 if s.value is not None:
                     _bad("return with a value in a generator", s)
-                return "Ok out__"
+                return self.ok("out__")
             if s.value is None:
+                if self.fun.result_var is not None:
+                    return self._result_var(env, s)
                 if self.rty != "unit":
                     _bad("bare return in a function returning %r" % (self.rty,), s)
-                return "Ok tt"
+                return self.ok("tt")
+            if self.fun.result_var is not None:
+                _bad("return with a value in a function translated with result_var", s)
             e = self.expr(s.value, env, self.rty)
-            return wrap(e.pre, "Ok %s" % coerce(e.text, e.ty, self.rty, s))
+            return self.swrap(e.pre, self.ok(coerce(e.text, e.ty, self.rty, s)))
         if isinstance(s, ast.Raise):
             exc = s.exc
             nm = exc.func if isinstance(exc, ast.Call) else exc
@@ -668,7 +942,7 @@ class FunTr:
                     for m in ast.walk(a):
                         if isinstance(m, (ast.Call, ast.Subscript, ast.Attribute)):
                             _bad("exception message too complex to be known not to raise", s)
-            return "Err %s" % ERR[key]
+            return self.err(ERR[key])
         if isinstance(s, ast.Continue):
             if not ctx.get("cont"):
                 _bad("continue outside a loop", s)
@@ -681,6 +955,16 @@ class FunTr:
             if len(s.targets) != 1:
                 _bad("multiple assignment targets", s)
             t = s.targets[0]
+            if isinstance(t, ast.Attribute) and ast.unparse(t) in self.stattr:
+                t = ast.copy_location(ast.Name(id=self.stattr[ast.unparse(t)], ctx=ast.Store()), t)
+            sc = self._selfcall(s.value)
+            if sc is not None:
+                if not isinstance(t, ast.Name):
+                    _bad("the result of a call of a method of the same object must be bound to a name", s)
+                return self._self_stmt(sc, t.id, s.value, env, nxt, s)
+            mc = self._mutating(s.value, env)
+            if mc is not None and isinstance(t, ast.Name):
+                return self._mut_stmt(mc, t.id, env, nxt, s)
             # x = l.pop(0)
             if isinstance(t, ast.Name) and isinstance(s.value, ast.Call) and isinstance(s.value.func, ast.Attribute) \
                     and s.value.func.attr == "pop" and isinstance(s.value.func.value, ast.Name):
@@ -695,12 +979,12 @@ class FunTr:
                 tty = self.declared(t.id, s)
                 env2[t.id] = tty
                 h = self.tmp()
-                return "(match %s with [] => Err IndexError | %s :: %s => let %s := %s in %s end)" % (
-                    cname(lst), h, cname(lst), cname(t.id), coerce(h, ety, tty, s), nxt(env2))
+                return "(match %s with [] => %s | %s :: %s => let %s := %s in %s end)" % (
+                    cname(lst), self.err("IndexError"), h, cname(lst), cname(t.id), coerce(h, ety, tty, s), nxt(env2))
             if isinstance(t, ast.Name):
                 e = self.expr(s.value, env, self.declared(t.id, s))
                 pfx, env2 = self.bind(t.id, e, env, s)
-                return wrap(e.pre, "(" + pfx + nxt(env2) + ")") if e.pre else "(" + pfx + nxt(env2) + ")"
+                return self.swrap(e.pre, "(" + pfx + nxt(env2) + ")") if e.pre else "(" + pfx + nxt(env2) + ")"
             if isinstance(t, ast.Tuple) and all(isinstance(x, ast.Name) for x in t.elts):
                 e = self.expr(s.value, env)
                 if not (isinstance(e.ty, tuple) and e.ty[0] == "tuple" and len(e.ty) - 1 == len(t.elts)):
@@ -715,7 +999,7 @@ class FunTr:
                     env2[x.id] = dty
                     lets += "let %s := %s in " % (cname(x.id), coerce(f, ty, dty, s))
                 body = "(let '(%s) := %s in %s%s)" % (", ".join(fresh), e.text, lets, nxt(env2))
-                return wrap(e.pre, body)
+                return self.swrap(e.pre, body)
             if isinstance(t, ast.Subscript) and isinstance(t.value, ast.Name) and t.value.id in env:
                 obj = t.value.id
                 oty = env[obj]
@@ -728,16 +1012,20 @@ class FunTr:
                     hi = self.expr(t.slice.upper, env, "Z") if t.slice.upper is not None else None
                     v = self.expr(s.value, env, oty)
                     pre = (lo.pre if lo else []) + (hi.pre if hi else []) + v.pre
-                    return wrap(pre, "(let %s := tr_slice_assign %s %s %s %s in %s)" % (
+                    return self.swrap(pre, "(let %s := tr_slice_assign %s %s %s %s in %s)" % (
                         cname(obj), cname(obj), "(Some %s)" % lo.text if lo else "None",
                         "(Some %s)" % hi.text if hi else "None", coerce(v.text, v.ty, oty, s), nxt(env)))
                 v = self.expr(s.value, env, oty[1])     # Python evaluates the value first
                 i = self.expr(t.slice, env, "Z")
                 tmpn = self.tmp()
-                return wrap(v.pre + i.pre + [(tmpn, "tr_set_index %s %s %s" % (cname(obj), i.text, coerce(v.text, v.ty, oty[1], s)))],
+                return self.swrap(v.pre + i.pre + [(tmpn, "tr_set_index %s %s %s" % (cname(obj), i.text, coerce(v.text, v.ty, oty[1], s)))],
                             "(let %s := %s in %s)" % (cname(obj), tmpn, nxt(env)))
             _bad("assignment target %s" % ast.unparse(t), s)
         if isinstance(s, ast.AugAssign):
+            if isinstance(s.target, ast.Attribute) and ast.unparse(s.target) in self.stattr:
+                s = ast.copy_location(ast.AugAssign(
+                    target=ast.copy_location(ast.Name(id=self.stattr[ast.unparse(s.target)], ctx=ast.Store()), s.target),
+                    op=s.op, value=s.value), s)
             if not isinstance(s.target, ast.Name):
                 _bad("augmented assignment target", s)
             fake = ast.BinOp(left=ast.Name(id=s.target.id, ctx=ast.Load()), op=s.op, right=s.value)
@@ -745,22 +1033,29 @@ class FunTr:
             ast.fix_missing_locations(fake)
             e = self.expr(fake, env)
             pfx, env2 = self.bind(s.target.id, e, env, s)
-            return wrap(e.pre, "(" + pfx + nxt(env2) + ")")
+            return self.swrap(e.pre, "(" + pfx + nxt(env2) + ")")
         if isinstance(s, ast.Expr) and isinstance(s.value, ast.Yield):
             if not self.fun.generator or s.value.value is None:
                 _bad("yield", s)
             e = self.expr(s.value.value, env, self.fun.ret)
-            return wrap(e.pre, "(let out__ := out__ ++ [%s] in %s)" % (coerce(e.text, e.ty, self.fun.ret, s), nxt(env)))
+            return self.swrap(e.pre, "(let out__ := out__ ++ [%s] in %s)" % (coerce(e.text, e.ty, self.fun.ret, s), nxt(env)))
+        if isinstance(s, ast.Expr) and isinstance(s.value, ast.Call):
+            sc = self._selfcall(s.value)
+            if sc is not None:
+                return self._self_stmt(sc, None, s.value, env, nxt, s)
+            mc = self._mutating(s.value, env)
+            if mc is not None:
+                return self._mut_stmt(mc, None, env, nxt, s)
         if isinstance(s, ast.Expr) and isinstance(s.value, ast.Call) and isinstance(s.value.func, ast.Attribute) \
                 and isinstance(s.value.func.value, ast.Name) and s.value.func.value.id in env:
             obj, meth, args = s.value.func.value.id, s.value.func.attr, s.value.args
             oty = env[obj]
             if meth == "append" and len(args) == 1 and isinstance(oty, tuple) and oty[0] == "list":
                 e = self.expr(args[0], env, oty[1])
-                return wrap(e.pre, "(let %s := %s ++ [%s] in %s)" % (cname(obj), cname(obj), coerce(e.text, e.ty, oty[1], s), nxt(env)))
+                return self.swrap(e.pre, "(let %s := %s ++ [%s] in %s)" % (cname(obj), cname(obj), coerce(e.text, e.ty, oty[1], s), nxt(env)))
             if meth == "write" and len(args) == 1 and oty == "strbuf":
                 e = self.expr(args[0], env, "str")
-                return wrap(e.pre, "(let %s := %s ++ %s in %s)" % (cname(obj), cname(obj), coerce(e.text, e.ty, "str", s), nxt(env)))
+                return self.swrap(e.pre, "(let %s := %s ++ %s in %s)" % (cname(obj), cname(obj), coerce(e.text, e.ty, "str", s), nxt(env)))
             _bad("statement %s" % ast.unparse(s), s)
         if isinstance(s, ast.If):
             return self._if(s, rest, env, k, ctx)
@@ -770,23 +1065,118 @@ class FunTr:
             return self._for(s, rest, env, k, ctx)
         _bad("statement %s" % type(s).__name__, s)
 
+    def _selfcall(self, call):
+        """`self.m(args)` where the spec renders "self.m" by a Call with `selfmethod` -> that Call, else None."""
+        if not isinstance(call, ast.Call):
+            return None
+        c = self.mod.calls.get(ast.unparse(call.func))
+        return c if isinstance(c, Call) and c.selfmethod else None
+
+    def _self_stmt(self, cand, target, call, env, nxt, node):
+        """[target =] self.m(args): run the translated method `cand.coq` of the same object on the current state."""
+        fs = [f for f in self.mod.funs if f.qual == cand.selfmethod and f.coq == cand.coq]
+        if len(fs) != 1 or not self.method:
+            _bad("%s: no translated method %s (%s) in this module / the caller is not in method mode"
+                 % (ast.unparse(call.func), cand.selfmethod, cand.coq), node)
+        f = fs[0]
+        if f.state != self.fun.state or f.ghost != self.fun.ghost or not f.skip_first or f.generator:
+            _bad("%s must be translated with the same ghost parameters and state as %s" % (f.qual, self.fun.qual), node)
+        if [t for _, t in f.params] != list(cand.args) or f.ret != cand.ret:
+            _bad("the rendering of %s does not have the parameter/return types of %s" % (ast.unparse(call.func), f.qual), node)
+        if call.keywords or len(call.args) > len(f.params) or any(isinstance(a, ast.Starred) for a in call.args):
+            _bad("arguments of %s" % ast.unparse(call), node)
+        es = [self.expr(a, env, w) for a, w in zip(call.args, cand.args)]
+        texts = [coerce(e.text, e.ty, w, node) for e, w in zip(es, cand.args)]
+        # arguments left out: the defaults as the callee's `def` has them NOW (constants: evaluated in an empty scope)
+        dn = find_def(self.mod.tree_, f.qual).args
+        dflt = dict(zip([x.arg for x in dn.args][len(dn.args) - len(dn.defaults):], dn.defaults))
+        for p, ty in f.params[len(call.args):]:
+            if p not in dflt:
+                _bad("%s: parameter %r is not given and has no default" % (ast.unparse(call), p), node)
+            d = self.pure(dflt[p], {}, ty)
+            texts.append(coerce(d.text, d.ty, ty, node))
+        app = " ".join([f.coq] + [cname(g) for g, _ in self.fun.ghost] + [cname(v) for _, v, _ in self.fun.state] + texts)
+        rv, stv, ev = self.tmp(), self.tmp(), self.tmp()
+        env2 = dict(env)
+        for _, v, t in self.fun.state:
+            env2[v] = t
+        lets = ""
+        if target is not None:
+            lets, env2 = self.bind(target, E([], rv, cand.ret), env2, node)
+        body = "(match %s with MErr %s %s => MErr %s %s | MOk %s %s => let '%s := %s in %s%s end)" % (
+            app, ev, stv, ev, stv, rv, stv, self.st_tuple(), stv, lets, nxt(env2))
+        return self.swrap(sum((e.pre for e in es), []), body)
+
+    def _mutating(self, call, env):
+        """`recv.m(args)` where the spec declares "<type>.m" as a receiver-mutating method -> (cand, recv var, args)."""
+        if not (isinstance(call, ast.Call) and isinstance(call.func, ast.Attribute) and not call.keywords):
+            return None
+        rv = call.func.value
+        if isinstance(rv, ast.Name) and rv.id in env:
+            var = rv.id
+        elif isinstance(rv, ast.Attribute) and ast.unparse(rv) in self.stattr:
+            var = self.stattr[ast.unparse(rv)]
+        else:
+            return None
+        ty = env[var]
+        opt = False
+        if isinstance(ty, tuple) and ty[0] == "option" and ("<option>.%s" % call.func.attr) not in self.mod.calls:
+            ty, opt = ty[1], True
+        tname = ty if isinstance(ty, str) else (ty[1] if ty[0] == "coq" else ty[0])
+        alts = self.mod.calls.get("<%s>.%s" % (tname, call.func.attr))
+        if alts is None:
+            return None
+        alts = alts if isinstance(alts, (list, tuple)) else [alts]
+        for cand in alts:
+            if cand.mutates and len(cand.args) == len(call.args) + 1:
+                return cand, var, call.args, opt
+        return None
+
+    def _mut_stmt(self, mc, target, env, nxt, node):
+        cand, var, argn, opt = mc
+        pre = []
+        rtext, rty = cname(var), env[var]
+        if opt:   # possibly-None receiver: None raises AttributeError (rendered OtherError) before the arguments are evaluated
+            u = self.tmp()
+            pre.append((u, "tr_unwrap %s" % rtext))
+            rtext, rty = u, rty[1]
+        es = [self.expr(a, env, w) for a, w in zip(argn, cand.args[1:])]
+        texts = [coerce(rtext, rty, cand.args[0], node)] + \
+                [coerce(e.text, e.ty, w, node) for e, w in zip(es, cand.args[1:])]
+        pre = pre + sum((e.pre for e in es), [])
+        app = "%s %s" % (cand.coq, " ".join(texts))
+        rv, rr = self.tmp(), self.tmp()
+        env2 = dict(env)
+        env2[var] = self.declared(var, node)
+        lets = "let %s := %s in " % (cname(var), coerce(rr, cand.args[0], self.declared(var, node), node))
+        if target is not None:
+            tty = self.declared(target, node)
+            env2[target] = tty
+            lets += "let %s := %s in " % (cname(target), coerce(rv, cand.ret, tty, node))
+        if cand.monadic:
+            pr = self.tmp()
+            return self.swrap(pre + [(pr, app)], "(let '(%s, %s) := %s in %s%s)" % (rv, rr, pr, lets, nxt(env2)))
+        return self.swrap(pre, "(let '(%s, %s) := %s in %s%s)" % (rv, rr, app, lets, nxt(env2)))
+
     # join points -------------------------------------------------------------
-    def join(self, env, assigned, k_after):
-        """Returns (prefix defining the join function, call(env_branch) -> text)."""
+    def join(self, env, assigned, k_after, narrowed=None):
+        """Returns (prefix defining the join function, call(env_branch) -> text).
+        narrowed: {variable: type} overriding the declared type (opt-in flow typing, see Fun.narrow)."""
         vs = [v for v in self.order if v in assigned and v in env]
         # variables assigned in the branches but not defined before are NOT visible afterwards (fail closed on use)
         self.njoin += 1
         name = "k%d_" % self.njoin
         env_after = dict(env)
+        pty = {v: (narrowed or {}).get(v, self.declared(v)) for v in vs}
         for v in vs:
-            env_after[v] = self.declared(v)
+            env_after[v] = pty[v]
         body = k_after(env_after)
         if not vs:
             return "let %s := (fun _ : unit => %s) in " % (name, body), (lambda e: "%s tt" % name)
-        params = " ".join("(%s : %s)" % (cname(v), ty_coq(self.declared(v))) for v in vs)
+        params = " ".join("(%s : %s)" % (cname(v), ty_coq(pty[v])) for v in vs)
 
         def call(e):
-            return "%s %s" % (name, " ".join(coerce(cname(v), e[v], self.declared(v)) for v in vs))
+            return "%s %s" % (name, " ".join(coerce(cname(v), e[v], pty[v]) for v in vs))
         return "let %s := (fun %s => %s) in " % (name, params, body), call
 
     def _if(self, s, rest, env, k, ctx):
@@ -794,7 +1184,17 @@ class FunTr:
         ft_body, ft_else = self.falls_through(s.body), self.falls_through(s.orelse)
         nar = self._narrow(s.test, env)
         if ft_body and ft_else and (rest or True):
-            pfx, call = self.join(env, self.assigned(s.body) + self.assigned(s.orelse), after)
+            asg = self.assigned(s.body) + self.assigned(s.orelse)
+            narrowed = None
+            if self.fun.narrow:
+                if nar:
+                    e_some = dict(env)
+                    e_some[nar[0]] = env[nar[0]][1]
+                    brs = [(s.body, env), (s.orelse, e_some)] if nar[1] else [(s.body, e_some), (s.orelse, env)]
+                else:
+                    brs = [(s.body, env), (s.orelse, env)]
+                narrowed = self._narrowed(self._probe(brs, ctx), asg)
+            pfx, call = self.join(env, asg, after, narrowed)
             kk = call
         else:
             pfx, kk = "", after
@@ -809,19 +1209,40 @@ class FunTr:
         c = self.cond(s.test, env)
         t_then = self.block(s.body, env, kk, ctx)
         t_else = self.block(s.orelse, env, kk, ctx)
-        return wrap(c.pre, "(%sif %s then %s else %s)" % (pfx, c.text, t_then, t_else))
+        return self.swrap(c.pre, "(%sif %s then %s else %s)" % (pfx, c.text, t_then, t_else))
 
-    def _loop_sig(self, env):
+    def _loop_sig(self, env, loop=None):
         vs = self.vars_of(env)
-        params = " ".join("(%s : %s)" % (cname(v), ty_coq(self.declared(v))) for v in vs)
+        sty = {v: self.declared(v) for v in vs}
+        if self.fun.narrow and loop is not None:
+            # flow typing (opt-in): a variable that the loop does not assign keeps the type it has on entry
+            asg = set(self.assigned([loop]))
+            sty.update(self._narrowed([env], [v for v in vs if v not in asg]))
+        params = " ".join("(%s : %s)" % (cname(v), ty_coq(sty[v])) for v in vs)
 
         def args(e):
             for v in vs:
                 if v not in e:
                     _bad("variable %r undefined on a loop back-edge" % v)
-            return " ".join(coerce(cname(v), e[v], self.declared(v)) for v in vs)
-        env_in = {v: self.declared(v) for v in vs}
+            return " ".join(coerce(cname(v), e[v], sty[v]) for v in vs)
+        env_in = dict(sty)
         return vs, params, args, env_in
+
+    def _nested_exit(self, idx, vs, params, args, env_in, after, ctx):
+        """A loop inside the body of another loop: what follows it runs on in the enclosing loop (its recursive
+        call, its iterator), so it cannot be inlined into the inner loop's top-level Fixpoint.  That Fixpoint takes
+        it as a continuation over the loop state instead (`kxN_`), passed as a lambda where the loop is entered.
+        Returns (extra parameter text, text passed on a recursive call, exit(env) -> text, thunk: the lambda text).
+        For a loop that is not nested everything is as before: ("", "", after, "")."""
+        if not ctx.get("cont"):
+            return "", "", after, (lambda: "")
+        kn = "kx%d_" % idx
+        if not vs:
+            return (" (%s : unit -> %s)" % (kn, self.rtype()), " " + kn, (lambda e: "%s tt" % kn),
+                    (lambda: " (fun _ : unit => %s)" % after(env_in)))
+        kty = " -> ".join(ty_coq(env_in[v]) for v in vs)     # = the declared types unless Fun.narrow
+        return (" (%s : %s -> %s)" % (kn, kty, self.rtype()), " " + kn, (lambda e: "%s %s" % (kn, args(e))),
+                (lambda: " (fun %s => %s)" % (params, after(env_in))))
 
     def _while(self, s, rest, env, k, ctx):
         if s.orelse:
@@ -831,24 +1252,25 @@ class FunTr:
         name = "%s_loop%d" % (self.fun.coq, idx)
         if idx not in self.fun.fuel:
             _bad("no fuel expression for loop %d of %s" % (idx, self.fun.qual), s)
-        vs, params, args, env_in = self._loop_sig(env)
+        vs, params, args, env_in = self._loop_sig(env, s)
         after = lambda env2: self.block(rest, env2, k, ctx)   # noqa: E731
+        kxpar, kxrec, after_in, kxval = self._nested_exit(idx, vs, params, args, env_in, after, ctx)
         uses_break = any(isinstance(n, ast.Break) for n in ast.walk(s))
         if uses_break:
-            kpfx, kcall = self.join(env_in, vs, after)
+            kpfx, kcall = self.join(env_in, vs, after_in, {v: env_in[v] for v in vs if env_in[v] != self.declared(v)})
         else:
-            kpfx, kcall = "", after
+            kpfx, kcall = "", after_in
         ctx2 = dict(ctx)
-        ctx2["cont"] = lambda e: "%s fuel %s" % (name, args(e))
+        ctx2["cont"] = lambda e: "%s fuel%s %s" % (name, kxrec, args(e))
         ctx2["brk"] = kcall
         c = self.cond(s.test, env_in)
         body = self.block(s.body, env_in, ctx2["cont"], ctx2)
-        text = ("Fixpoint %s (fuel : nat) %s {struct fuel} : result %s :=\n  match fuel with\n  | O => Err OutOfFuel\n"
+        text = ("Fixpoint %s (fuel : nat)%s %s {struct fuel} : %s :=\n  match fuel with\n  | O => %s\n"
                 "  | S fuel =>\n    %s%s\n  end.\n" % (
-                    name, params, ty_coq(self.rty), kpfx,
-                    wrap(c.pre, "(if %s then %s else %s)" % (c.text, body, kcall(env_in)))))
+                    name, kxpar, params, self.rtype(), self.err("OutOfFuel"), kpfx,
+                    self.swrap(c.pre, "(if %s then %s else %s)" % (c.text, body, kcall(env_in)))))
         self.defs.append(text)
-        return "(%s (%s) %s)" % (name, self.fun.fuel[idx], args(env))
+        return "(%s (%s)%s %s)" % (name, self.fun.fuel[idx], kxval(), args(env))
 
     def _for(self, s, rest, env, k, ctx):
         self.nloop += 1
@@ -857,7 +1279,7 @@ class FunTr:
         after = lambda env2: self.block(rest, env2, k, ctx)   # noqa: E731
         shared = isinstance(s.iter, ast.Name) and s.iter.id in env and isinstance(env[s.iter.id], tuple) \
             and env[s.iter.id][0] == "iter"
-        vs, params, args, env_in = self._loop_sig(env)
+        vs, params, args, env_in = self._loop_sig(env, s)
         if shared:
             ety = env[s.iter.id][1]
         else:
@@ -870,7 +1292,9 @@ class FunTr:
                       and isinstance(s.target, ast.Tuple) and isinstance(s.target.elts[0], ast.Name))
                 if ok:
                     idxn = s.target.elts[0].id
-                    if idxn in self.assigned(s.body):
+                    # the index variable must not be rebound in the body (its use as `N[i]` is a read)
+                    if any(isinstance(q, ast.Name) and q.id == idxn and not isinstance(q.ctx, ast.Load)
+                           for q in ast.walk(ast.Module(body=s.body, type_ignores=[]))):
                         ok = False
                     for m in ast.walk(ast.Module(body=s.body, type_ignores=[])):
                         if isinstance(m, (ast.Assign, ast.AugAssign)):
@@ -909,32 +1333,36 @@ class FunTr:
             _bad("for target", s)
         # the loop variable(s) become part of the environment of later iterations/after the loop only if defined before
         uses_break = any(isinstance(n, ast.Break) for n in ast.walk(s))
-        k_else = lambda e: self.block(s.orelse, e, after, ctx)   # noqa: E731  (exhausted: else-block, then what follows)
+        kxpar, kxrec, after_in, kxval = self._nested_exit(idx, vs, params, args, env_in, after, ctx)
+        # the else-block of a NESTED loop is rendered inside the inner Fixpoint: a continue/break there would address
+        # the enclosing loop, which is not in scope — fail closed (ctx without cont/brk)
+        ctx_else = ctx if not kxpar else {c: v for c, v in ctx.items() if c not in ("cont", "brk")}
+        k_else = lambda e: self.block(s.orelse, e, after_in, ctx_else)   # noqa: E731  (exhausted: else-block, then what follows)
         if uses_break:
-            kpfx, kbrk = self.join(env_in, vs, after)
-            k_exh = lambda e: self.block(s.orelse, e, kbrk, ctx)   # noqa: E731
+            kpfx, kbrk = self.join(env_in, vs, after_in, {v: env_in[v] for v in vs if env_in[v] != self.declared(v)})
+            k_exh = lambda e: self.block(s.orelse, e, kbrk, ctx_else)   # noqa: E731
         else:
-            kpfx, kbrk, k_exh = "", after, k_else
+            kpfx, kbrk, k_exh = "", after_in, k_else
         ctx2 = dict(ctx)
         ctx2["brk"] = kbrk
         if shared:
             if idx not in self.fun.fuel:
                 _bad("no fuel expression for loop %d of %s (loop over a shared iterator)" % (idx, self.fun.qual), s)
             itn = cname(s.iter.id)
-            ctx2["cont"] = lambda e: "%s fuel %s" % (name, args(e))
+            ctx2["cont"] = lambda e: "%s fuel%s %s" % (name, kxrec, args(e))
             body = self.block(s.body, env_body, ctx2["cont"], ctx2)
-            text = ("Fixpoint %s (fuel : nat) %s {struct fuel} : result %s :=\n  match fuel with\n  | O => Err OutOfFuel\n"
+            text = ("Fixpoint %s (fuel : nat)%s %s {struct fuel} : %s :=\n  match fuel with\n  | O => %s\n"
                     "  | S fuel =>\n    %smatch %s with\n    | [] => %s\n    | %s :: %s => %s%s\n    end\n  end.\n" % (
-                        name, params, ty_coq(self.rty), kpfx, itn, k_exh(env_in), pat, itn, bind, body))
+                        name, kxpar, params, self.rtype(), self.err("OutOfFuel"), kpfx, itn, k_exh(env_in), pat, itn, bind, body))
             self.defs.append(text)
-            return "(%s (%s) %s)" % (name, self.fun.fuel[idx], args(env))
+            return "(%s (%s)%s %s)" % (name, self.fun.fuel[idx], kxval(), args(env))
         itv = "it%d_" % idx
-        ctx2["cont"] = lambda e: "%s %s %s" % (name, itv, args(e))
+        ctx2["cont"] = lambda e: "%s %s%s %s" % (name, itv, kxrec, args(e))
         body = self.block(s.body, env_body, ctx2["cont"], ctx2)
-        text = ("Fixpoint %s (%s : list %s) %s {struct %s} : result %s :=\n  %smatch %s with\n  | [] => %s\n  | %s :: %s => %s%s\n  end.\n" % (
-            name, itv, ty_coq(ety), params, itv, ty_coq(self.rty), kpfx, itv, k_exh(env_in), pat, itv, bind, body))
+        text = ("Fixpoint %s (%s : list %s)%s %s {struct %s} : %s :=\n  %smatch %s with\n  | [] => %s\n  | %s :: %s => %s%s\n  end.\n" % (
+            name, itv, ty_coq(ety), kxpar, params, itv, self.rtype(), kpfx, itv, k_exh(env_in), pat, itv, bind, body))
         self.defs.append(text)
-        return wrap(it.pre, "(%s %s %s)" % (name, it.text, args(env)))
+        return self.swrap(it.pre, "(%s %s%s %s)" % (name, it.text, kxval(), args(env)))
 
     # ------------------------------------------------------------------
     def translate(self):
@@ -967,7 +1395,9 @@ class FunTr:
             _bad("parameters of %s are %r, the spec says %r" % (self.fun.qual, names, spec_names), self.node)
         extra = names[len(spec_names):]
         defaults = dict(zip([x.arg for x in a.args][len(a.args) - len(a.defaults):], a.defaults))
-        env = {p: t for p, t in self.fun.params}
+        env = {p: t for p, t in self.fun.ghost}
+        env.update({p: t for p, t in self.fun.params})
+        env.update({v: t for _, v, t in self.fun.state})
         pre_lets = ""
         for x in extra:
             if x not in defaults:
@@ -981,13 +1411,16 @@ class FunTr:
 
         def k_end(e):
             if self.fun.generator:
-                return "Ok out__"
+                return self.ok("out__")
+            if self.fun.result_var is not None:
+                return self._result_var(e, self.node)
             if self.rty == "unit":
-                return "Ok tt"
+                return self.ok("tt")
             _bad("%s may fall off its end (implicit None)" % self.fun.qual, self.node)
         body = self.block(self.node.body, env, k_end, {})
-        params = " ".join("(%s : %s)" % (cname(p), ty_coq(t)) for p, t in self.fun.params)
-        main = "Definition %s %s : result %s :=\n  %s%s.\n" % (self.fun.coq, params, ty_coq(self.rty), pre_lets, body)
+        params = " ".join("(%s : %s)" % (cname(p), ty_coq(t)) for p, t in
+                          self.fun.ghost + [(v, t) for _, v, t in self.fun.state] + self.fun.params)
+        main = "Definition %s %s : %s :=\n  %s%s.\n" % (self.fun.coq, params, self.rtype(), pre_lets, body)
         return "\n".join(self.defs + [main])
 
 
@@ -996,6 +1429,7 @@ def translate_module(repo, mod):
     with open(path, encoding="utf-8") as f:
         src = f.read()
     tree = ast.parse(src, path)
+    mod.tree_ = tree      # for FunTr._self_stmt (defaults of a called method of the same object)
     out = ["(* GENERATED by harness/py2coq.py from %s — do not edit.  Regenerated on every run. *)\n" % mod.rel,
            "From Verif Require Import Lib.Base Lib.PyStr Lib.Dec Lib.Tr.\n"]
     for imp in mod.imports:
